@@ -151,6 +151,53 @@ TARGETS = {
                        ("text", "return (p if random_order else p_history[-1], p_history)")],
              tail=TAIL_SPRT),
     ],
+    # the estimators and bets: every statement exact, the arithmetic translated (the shifts by one position, np.insert /
+    # [0:-1], and the running state are the sequential machines of the hand model, tied by the correspondence)
+    "nnm_estims": [
+        dict(name="sjm", kind="skeleton", file="shangrla/core/NonnegMean.py", func="NonnegMean.sjm",
+             skeleton=[("text", "assert isinstance(N, int) or (math.isinf(N) and N > 0), 'Population size is not an integer!'"),
+                       ("text", "S = np.insert(np.cumsum(x), 0, 0)"), ("text", "Stot = S[-1]"), ("text", "S = S[0:-1]"),
+                       ("text", "j = np.arange(1, len(x) + 1)"),
+                       ("text", "assert j[-1] <= N, 'Sample size is larger than the population!'"),
+                       ("assign", "m"), ("text", "return (S, Stot, j, m)")]),
+        dict(name="welford", kind="skeleton", file="shangrla/core/NonnegMean.py", func="welford_mean_var",
+             skeleton=[("text", "m = [x[0]]"), ("text", "v = [0]"), ("for", "(i, xi) in enumerate(x[1:])"),
+                       ("append_expr", "m", "mean", ["mean", "xi", "k"], {"m[-1]": "mean", "i + 2": "k"}),
+                       ("append_expr", "v", "m2", ["m2", "xi", "mean", "mean'"], {"v[-1]": "m2", "m[-2]": "mean", "m[-1]": "mean'"}),
+                       ("endfor",), ("text", "v = v / np.arange(1, len(x) + 1)"), ("text", "return (np.array(m), v)")]),
+        dict(name="fixedalt", kind="skeleton", file="shangrla/core/NonnegMean.py", func="NonnegMean.fixed_alternative_mean",
+             skeleton=[("text", "u = self.u"), ("text", "N = self.N"),
+                       ("text", "eta = getattr(self, 'eta', u * (1 - np.finfo(float).eps))"),
+                       ("text", "_S, _Stot, _j, m = self.sjm(N, eta, x)"), ("warn_guard",), ("warn_guard",),
+                       ("ret_expr", "out", ["u", "m"], {})]),
+        dict(name="shrink", kind="skeleton", file="shangrla/core/NonnegMean.py", func="NonnegMean.shrink_trunc",
+             skeleton=[("text", "u = self.u"), ("text", "N = self.N"), ("text", "t = self.t"),
+                       ("text", "eta = getattr(self, 'eta', u * (1 - np.finfo(float).eps))"),
+                       ("text", "c = getattr(self, 'c', 1 / 2)"), ("text", "d = getattr(self, 'd', 100)"),
+                       ("text", "f = getattr(self, 'f', 0)"), ("text", "minsd = getattr(self, 'minsd', 10 ** (-6))"),
+                       ("text", "S, _, j, m = self.sjm(N, t, x)"), ("text", "_, v = welford_mean_var(x)"),
+                       ("text", "sdj = np.sqrt(v)"), ("text", "sdj = np.insert(np.maximum(sdj, minsd), 0, 1)[0:-1]"),
+                       ("text", "sdj[1:2] = 1"),
+                       ("expr", "weighted", "weighted", ["d", "eta", "S", "j", "u", "f", "sdj"], {}),
+                       ("ret_expr", "out", ["u", "weighted", "m", "c", "sq"],
+                        {"np.finfo(float).eps": "eps_np", "np.sqrt(d + j - 1)": "sq"})]),
+        dict(name="agrapa", kind="skeleton", file="shangrla/core/NonnegMean.py", func="NonnegMean.agrapa",
+             skeleton=[("text", "u = self.u"), ("text", "N = self.N"), ("text", "t = self.t"),
+                       ("text", "lam = getattr(self, 'lam', 0.5)"),
+                       ("text", "c_g_0 = getattr(self, 'c_grapa_0', 1 - np.finfo(float).eps)"),
+                       ("text", "c_g_m = getattr(self, 'c_grapa_max', 1 - np.finfo(float).eps)"),
+                       ("text", "c_g_g = getattr(self, 'c_grapa_grow', 0)"),
+                       ("text", "mj, sdj2 = welford_mean_var(x)"),
+                       ("text", "t_adj = (N * t - np.insert(np.cumsum(x), 0, 0)[0:-1]) / (N - np.arange(len(x))) if np.isfinite(N) else t * np.ones(len(x))"),
+                       ("with", "np.errstate(divide='ignore', invalid='ignore')"),
+                       ("expr", "lamj", "raw", ["mj", "t_adj", "sdj2"], {}), ("endwith",),
+                       ("text", "lamj[np.isnan(lamj)] = 0"), ("text", "lamj = np.insert(lamj, 0, lam)[0:-1]"),
+                       ("expr", "c", "c", ["c_g_0", "c_g_m", "c_g_g", "sq"], {"np.sqrt(np.arange(len(x)))": "sq"}),
+                       ("expr", "lamj", "cap", ["c", "t_adj", "lamj"], {}),
+                       ("text", "return lamj")]),
+        dict(name="fixedbet", kind="skeleton", file="shangrla/core/NonnegMean.py", func="NonnegMean.fixed_bet",
+             skeleton=[("text", "return self.lam * np.ones_like(x)")]),
+    ],
     "audit": [
         dict(name="overstatement_assorter", file="shangrla/core/Audit.py", func="Assertion.overstatement_assorter",
              args=["omega", "ua", "v"], params={},
@@ -210,6 +257,9 @@ def expr(node, env, atoms):
     src = ast.unparse(node)
     if src in atoms:
         return atoms[src]
+    if isinstance(node, ast.BinOp) and isinstance(node.op, ast.Pow) and isinstance(node.right, ast.Constant) and node.right.value == 2:
+        e = expr(node.left, env, atoms)
+        return f"({e} * {e})"
     if isinstance(node, ast.BinOp):
         ops = {ast.Add: "+", ast.Sub: "-", ast.Mult: "*", ast.Div: "/"}
         if type(node.op) not in ops:
@@ -319,6 +369,10 @@ def flatten(stmts):
             out.append(("with", ", ".join(ast.unparse(i) for i in st.items)))
             out.extend(flatten(st.body))
             out.append(("endwith",))
+        elif isinstance(st, ast.For) and not st.orelse:
+            out.append(("for", f"{ast.unparse(st.target)} in {ast.unparse(st.iter)}"))
+            out.extend(flatten(st.body))
+            out.append(("endfor",))
         else:
             out.append(("stmt", st))
     return out
@@ -361,9 +415,9 @@ def translate_skeleton(target, fn):
         return items[pos]
     for sk in target["skeleton"]:
         kind = sk[0]
-        if kind in ("with", "endwith"):
+        if kind in ("with", "endwith", "for", "endfor"):
             it = cur()
-            if it[0] != kind or (kind == "with" and it[1] != sk[1]):
+            if it[0] != kind or (kind in ("with", "for") and it[1] != sk[1]):
                 raise TranslationError(f"{target['func']}: expected {sk}, found {it[0]} {ast.unparse(it[1])[:80] if it[0] == 'stmt' else (it[1:] or '')}")
             pos += 1
         elif kind == "text":
@@ -376,6 +430,30 @@ def translate_skeleton(target, fn):
             st = it[1] if it[0] == "stmt" else None
             if not (isinstance(st, ast.If) and not st.orelse and len(st.body) == 1 and isinstance(st.body[0], ast.Raise)):
                 raise TranslationError(f"{target['func']}: expected an input-validation guard, found `{ast.unparse(st)[:100] if st is not None else it}`")
+            pos += 1
+        elif kind == "warn_guard":      # if <cond>: warnings.warn(...)   (diagnostics only)
+            it = cur()
+            st = it[1] if it[0] == "stmt" else None
+            if not (isinstance(st, ast.If) and not st.orelse and len(st.body) == 1 and isinstance(st.body[0], ast.Expr)
+                    and isinstance(st.body[0].value, ast.Call) and ast.unparse(st.body[0].value.func) == "warnings.warn"):
+                raise TranslationError(f"{target['func']}: expected a warnings.warn guard, found `{ast.unparse(st)[:100] if st is not None else it}`")
+            pos += 1
+        elif kind in ("append_expr", "ret_expr"):
+            it = cur()
+            st = it[1] if it[0] == "stmt" else None
+            if kind == "append_expr":
+                _, lst, gname, args, atoms = sk
+                ok = (isinstance(st, ast.Expr) and isinstance(st.value, ast.Call) and ast.unparse(st.value.func) == f"{lst}.append"
+                      and len(st.value.args) == 1 and not st.value.keywords)
+                val = st.value.args[0] if ok else None
+            else:
+                _, gname, args, atoms = sk
+                ok = isinstance(st, ast.Return) and st.value is not None
+                val = st.value if ok else None
+            if not ok:
+                raise TranslationError(f"{target['func']}: expected {kind} here, found `{ast.unparse(st)[:100] if st is not None else it}`")
+            body = expr(val, {a: a for a in args}, atoms)
+            defs.append(f"Definition gen_{target['name']}_{gname} ({' '.join(args)} : Q) : Q :=\n  {body}.\n")
             pos += 1
         elif kind == "assign":
             it = cur()
